@@ -67,6 +67,57 @@ pub fn run_ser(reg: &PortableRegistry) -> (Value, String) {
     (v, s)
 }
 
+/// serde's positional form of the whole registry: every struct as an array of its members in declaration order, every unit
+/// variant as a one-member map (what `SIM.JsonM.posOfRegistry` writes; theorem `C08pos.toRegistry_posOfRegistry`)
+pub fn positional(reg: &PortableRegistry) -> Value {
+    use scale_info::{form::PortableForm, Field, TypeDef};
+    fn opt(o: &Option<String>) -> Value {
+        o.clone().map(Value::String).unwrap_or(Value::Null)
+    }
+    fn field(f: &Field<PortableForm>) -> Value {
+        json!([opt(&f.name), f.ty.id, opt(&f.type_name), f.docs])
+    }
+    let types: Vec<Value> = reg
+        .types
+        .iter()
+        .map(|p| {
+            let t = &p.ty;
+            let def = match &t.type_def {
+                TypeDef::Composite(c) => json!({"composite": [c.fields.iter().map(field).collect::<Vec<_>>()]}),
+                TypeDef::Variant(v) => json!({"variant": [v
+                    .variants
+                    .iter()
+                    .map(|v| json!([v.name, v.fields.iter().map(field).collect::<Vec<_>>(), v.index, v.docs]))
+                    .collect::<Vec<_>>()]}),
+                TypeDef::Sequence(x) => json!({"sequence": [x.type_param.id]}),
+                TypeDef::Array(x) => json!({"array": [x.len, x.type_param.id]}),
+                TypeDef::Tuple(x) => json!({"tuple": x.fields.iter().map(|i| i.id).collect::<Vec<_>>()}),
+                TypeDef::Primitive(x) => {
+                    let name = serde_json::to_value(x).unwrap().as_str().unwrap().to_string();
+                    let mut m = serde_json::Map::new();
+                    m.insert(name, Value::Null);
+                    json!({"primitive": Value::Object(m)})
+                }
+                TypeDef::Compact(x) => json!({"compact": [x.type_param.id]}),
+                TypeDef::BitSequence(x) => json!({"bitsequence": [x.bit_store_type.id, x.bit_order_type.id]}),
+            };
+            let params: Vec<Value> = t.type_params.iter().map(|q| json!([q.name, q.ty.map(|i| i.id)])).collect();
+            json!([p.id, [t.path.segments, params, def, t.docs]])
+        })
+        .collect();
+    json!([types])
+}
+pub fn run_pos(reg: &PortableRegistry) -> String {
+    let v = positional(reg);
+    let res = catch_unwind(AssertUnwindSafe(|| serde_json::from_value::<PortableRegistry>(v.clone())));
+    let obs = match res {
+        Err(_) => "panic".to_string(),
+        Ok(Err(_)) => "err".to_string(),
+        Ok(Ok(r)) => format!("ok {}", pregistry(&r)),
+    };
+    format!("pos {} {} {}", pregistry(reg), pjson(&v), obs)
+}
+
 pub fn run_de(v: &Value) -> String {
     let res = catch_unwind(AssertUnwindSafe(|| serde_json::from_value::<PortableRegistry>(v.clone())));
     match res {
@@ -262,6 +313,8 @@ pub fn json_stream(r: &mut Rng, n: u64, thorough: bool, out: &mut Out) {
         let (v, s) = run_ser(&reg);
         out.line(&format!("json {} {}", case, s));
         case += 1;
+        out.line(&format!("json {} {}", case, run_pos(&reg)));
+        case += 1;
         let muts = if thorough { 10 } else { 5 };
         for _ in 0..muts {
             let mut m = mutate(r, &v);
@@ -319,6 +372,10 @@ pub fn replay_json(line: &str, out: &mut Out) -> R<()> {
         "ser" => {
             let reg = t.registry()?;
             out.line(&format!("json {} {}", id, run_ser(&reg).1));
+        }
+        "pos" => {
+            let reg = t.registry()?;
+            out.line(&format!("json {} {}", id, run_pos(&reg)));
         }
         "de" => {
             let v = parse_json(&mut t)?;
